@@ -123,7 +123,11 @@ Definition clear_log (s : state) : state := mkState (fw s) (cancelled s) (client
    - a write loop in its select with an empty buffer and its context done, when no envelope can be forwarded any
      more in this reaction (the forwarding loop is gone, or no read loop holds or can read an envelope);
    - a read loop inside conn.Read with nothing queued: the context error / the transport's error;
-   - any goroutine offering to the forwarding loop once that loop is gone: it gives up. *)
+   - any goroutine offering to the forwarding loop once that loop is gone: it gives up;
+   - while the context of a record is live and nothing in this reaction can end it (no failure armed, no loop
+     returning): its read loop taking the next queued envelope; its write loop taking the next buffered envelope,
+     provided no enqueue of this reaction can find the buffer full whichever comes first (buffer length + number
+     of envelopes still to be forwarded <= capacity), so that take and enqueue commute. *)
 Definition no_more_forwards (s : state) : bool :=
   negb (fw s)
   || forallb (fun c => match p_rd c with
@@ -131,32 +135,47 @@ Definition no_more_forwards (s : state) : bool :=
                        | RDRead => match p_inbox c with [] => true | _ => false end
                        | _ => true end) (clients s).
 
+(* the context of record c is live and stays live through the reaction: nothing can make one of its loops return *)
+Definition ctx_stable (s : state) (c : client) : bool :=
+  negb (ctx_done s c) && negb (p_rfail c)
+  && match p_wmode c with WFail => false | _ => true end
+  && match p_rd c with RDOfferErr | RDDead => false | _ => true end
+  && match p_wr c with WROfferErr | WRDead => false | _ => true end.
+
+(* an upper bound on the number of envelopes the forwarding loop can still receive in this reaction *)
+Definition pending_forwards (s : state) : nat :=
+  fold_right (fun c acc => (length (p_inbox c) + match p_rd c with RDOffer _ => 1 | _ => 0 end + acc)%nat) 0%nat (clients s).
+
 Definition first_some {A} (l : list (option A)) : option A :=
   fold_right (fun o acc => match o with Some x => Some x | None => acc end) None l.
 
-Definition eager_client (s : state) (nf : bool) (j : nat) (c : client) : option state :=
+Definition eager_client (cf : cfg) (s : state) (nf : bool) (j : nat) (c : client) : option state :=
   first_some
     [ match p_wr c with
       | WRWrite _ => match p_wmode c with WBlock => r_wr_ctx j s | _ => r_wr_write j s end
-      | WRSel => if nf then match p_buf c with [] => r_wr_exit j s | _ => None end else None
+      | WRSel => match p_buf c with
+                 | [] => if nf then r_wr_exit j s else None
+                 | _ => if ctx_stable s c && (nf || Nat.leb (length (p_buf c) + pending_forwards s) (cf_buf cf))
+                        then r_wr_take j s else None
+                 end
       | WROfferErr => if fw s then None else r_wr_giveup j s
       | _ => None
       end;
       match p_rd c with
       | RDRead => match p_inbox c with
                   | [] => match r_rd_ctx j s with Some s' => Some s' | None => r_rd_read j s end
-                  | _ => None end
+                  | _ => if ctx_stable s c then r_rd_read j s else None end
       | RDOffer _ | RDOfferErr => if fw s then None else r_rd_giveup j s
       | _ => None
       end;
       match p_dl c with DLOffer => if fw s then None else r_dl_giveup j s | _ => None end ].
 
-Definition eager (s : state) : option state :=
+Definition eager (cf : cfg) (s : state) : option state :=
   let nf := no_more_forwards s in
-  first_some (map (fun p => eager_client s nf (fst p) (snd p)) (combine (seq 0 (length (clients s))) (clients s))).
+  first_some (map (fun p => eager_client cf s nf (fst p) (snd p)) (combine (seq 0 (length (clients s))) (clients s))).
 
 Definition int_succs (cf : cfg) (s : state) : list state :=
-  match eager s with
+  match eager cf s with
   | Some s' => [canon s']
   | None => map canon (Explore.filter_map (fun r => r s) (rules cf s))
   end.
